@@ -58,6 +58,27 @@ func validateURLPrefix(prefix string) error {
 	return nil
 }
 
+// urlPrefixStaysInvalid reports whether no text that follows the URL prefix can make it pass
+// its validator: it contains whitespace or control characters, or it has an unsafe scheme. An
+// incomplete character reference or percent-encoding triplet at the end of the prefix is left
+// out of account, since text that follows can complete it.
+func urlPrefixStaysInvalid(sc sanitizationContext, prefix string) bool {
+	if loc := endsWithCharRefPrefixPattern.FindStringIndex(prefix); loc != nil {
+		prefix = prefix[:loc[0]]
+	}
+	if containsWhitespaceOrControlPattern.MatchString(prefix) || containsUnterminatedSingleDigitCharRefPattern.MatchString(prefix+"x") {
+		return true
+	}
+	decoded := html.UnescapeString(prefix)
+	if containsWhitespaceOrControlPattern.MatchString(decoded) {
+		return true
+	}
+	if sc != sanitizationContextTrustedResourceURL && startsWithFullySpecifiedSchemePattern.MatchString(decoded) {
+		return safehtml.URLSanitized(decoded).String() != decoded
+	}
+	return false
+}
+
 // validateTrustedResourceURLPrefix validates if the given non-empty prefix is a safe
 // safehtml.TrustedResourceURL prefix.
 //
@@ -65,20 +86,6 @@ func validateURLPrefix(prefix string) error {
 // or percent-encoding character triplet.
 //
 // See safehtmlutil.IsSafeTrustedResourceURLPrefix for details on how the prefix is validated.
-// urlPrefixLeavesSchemeOpen reports whether text that follows the URL prefix could still change
-// the scheme or the origin of the URL, or whether they are unsafe already. Unlike the prefix
-// validators it does not look at how the prefix ends.
-func urlPrefixLeavesSchemeOpen(sc sanitizationContext, prefix string) bool {
-	decoded := html.UnescapeString(prefix)
-	switch {
-	case sc == sanitizationContextTrustedResourceURL:
-		return !safehtmlutil.IsSafeTrustedResourceURLPrefix(decoded)
-	case startsWithFullySpecifiedSchemePattern.MatchString(decoded):
-		return safehtml.URLSanitized(decoded).String() != decoded
-	}
-	return !strings.ContainsAny(decoded, "/?#")
-}
-
 func validateTrustedResourceURLPrefix(prefix string) error {
 	decoded, err := decodeURLPrefix(prefix)
 	if err != nil {
